@@ -83,7 +83,7 @@ func checkC02(w *World, r *Report) {
 	{
 		shape := false
 		var X ssa.Value
-		if c, ok := isCallTo(amount, "math.Int.Sub"); ok {
+		if c, ok := isCallTo(w.inlineResult(amount), "math.Int.Sub"); ok {
 			a := c.Common().Args
 			if t, ok := isCallTo(a[0], "types.Dec.TruncateInt"); ok && loadOfField(a[1], "AmountMinted", nil) {
 				shape = true
@@ -416,6 +416,9 @@ func checkC02(w *World, r *Report) {
 					// every other operation and leaf on the slice belongs to X itself
 					extra := ""
 					for c2 := range o.Calls {
+						if h := c2.Common().StaticCallee(); h != nil && h.Blocks != nil && w.isProdFunc(h) && !c2.Common().IsInvoke() {
+							continue // a module helper that was entered (a constructor of the successor state): what it computes is on the slice itself
+						}
 						if c2 != c && c2 != t && !oX.Calls[c2] {
 							extra = callName(c2.Common())
 						}
@@ -461,19 +464,30 @@ func periodStartRule(w *World, r *Report, rule string, fns []*ssa.Function) {
 	for _, fn := range fns {
 		var sel *ssa.Call
 		for _, s := range cg.Sites[fn] {
-			if calleeIs(s, "x/cfeminter/keeper.getCurrentAndPreviousMinter") {
-				sel = siteCall(s)
+			if c := siteCall(s); c != nil && w.isSelectionCall(c.Common()) {
+				sel = c
 			}
 		}
 		if sel == nil {
 			r.Bad(rule, funcName(fn)+": current and predecessor from getCurrentAndPreviousMinter", w.Pos(fn.Pos()), "the shared selection function is not used")
 			continue
 		}
+		// the operands (whatever their order and whether the periods travel as a slice or inside the parameters value):
+		// the configured periods on one side, the stored state's id on the other
 		a := sel.Common().Args
-		o0 := tr.Origins(a[0])
-		okArgs := loadOfField(a[0], "Minters", nil) && (o0.HasCall("GetParams") || o0.HasLeaf("param", "params") || o0.HasPath("Params.Minters"))
-		o1 := tr.Origins(a[1])
-		okArgs = okArgs && (o1.HasCall("GetMinterState") || o1.HasCall("MustUnmarshal"))
+		fromParams, fromState := false, false
+		for _, arg := range a {
+			oa := tr.Origins(arg)
+			isParams := loadOfField(arg, "Minters", nil) || strings.HasSuffix(typeString(arg.Type()), "types.Params")
+			if isParams && (oa.HasCall("GetParams") || oa.HasLeaf("param", "params") || oa.HasPath("Params.Minters") || oa.HasCall("MustUnmarshal")) {
+				fromParams = true
+			}
+			isState := strings.HasSuffix(typeString(arg.Type()), "types.MinterState") || loadOfField(arg, "SequenceId", nil)
+			if isState && (oa.HasCall("GetMinterState") || oa.HasCall("MustUnmarshal")) {
+				fromState = true
+			}
+		}
+		okArgs := fromParams && fromState
 		r.Check(okArgs, rule, funcName(fn)+": selection over (params.Minters, stored state)", w.Pos(sel.Pos()), "arguments are the configured periods and the stored minter state", "the periods are selected from other data than the parameters and the stored state")
 		// the start passed on
 		var startArg ssa.Value
